@@ -272,7 +272,7 @@ func fromData(d data.Value) (v *V, what string) {
 			if k == "" {
 				k = strconv.Itoa(i)
 			}
-			out.M = append(out.M, KV{k, e})
+			out.M = append(out.M, KV{K: k, V: e})
 		}
 		return out, ""
 	case *data.ObjectValue:
@@ -285,7 +285,7 @@ func fromData(d data.Value) (v *V, what string) {
 				bad = w
 				return false
 			}
-			out.M = append(out.M, KV{k, e})
+			out.M = append(out.M, KV{K: k, V: e})
 			return true
 		})
 		if bad != "" {
